@@ -33,8 +33,13 @@ def sigma_for(n):
     return np.array([[0.5 ** abs(i - j) * np.sqrt(d[i] * d[j]) for j in range(n)] for i in range(n)])
 
 
-def basis_rdms(basis, nc, measure='grid', dtype=float):
+def basis_rdms(basis, nc, measure='grid', dtype=float, index=None):
     import rsatoolbox
+    if index is not None:
+        return rsatoolbox.rdm.RDMs(np.array(basis, dtype=dtype), dissimilarity_measure=measure, descriptors={'session': 'x'},
+                                   rdm_descriptors={'name': [f'b{k}' for k in range(len(basis))]},
+                                   pattern_descriptors={'index': np.array(index), 'cond': [f'c{p + 1}' for p in range(nc)],
+                                                        'cat': [(p + 2) // 2 for p in range(nc)]})
     return rsatoolbox.rdm.RDMs(np.array(basis, dtype=dtype), dissimilarity_measure=measure,
                                descriptors={'session': 'x'},
                                rdm_descriptors={'name': [f'b{k}' for k in range(len(basis))]},
@@ -42,16 +47,238 @@ def basis_rdms(basis, nc, measure='grid', dtype=float):
                                                     'cat': [(p + 2) // 2 for p in range(nc)]})
 
 
-def data_rdms(train, nc):
+def data_rdms(train, nc, index=None):
     import rsatoolbox
     return rsatoolbox.rdm.RDMs(np.array(train, dtype=float), dissimilarity_measure='grid',
                                rdm_descriptors={'subj': list(range(1, len(train) + 1))},
-                               pattern_descriptors={'index': np.arange(nc), 'cond': [f'c{p + 1}' for p in range(nc)]})
+                               pattern_descriptors={'index': np.arange(nc) if index is None else np.array(index),
+                                                    'cond': [f'c{p + 1}' for p in range(nc)]})
 
 
 def token_data(r_count, nc):
     vec = [[S.tok(r, i, j, set()) for i in range(1, nc + 1) for j in range(i + 1, nc + 1)] for r in range(1, r_count + 1)]
     return data_rdms(vec, nc)
+
+
+FITTERS_OF = {'fit_regress': 'ModelWeighted', 'fit_regress_nn': 'ModelWeighted', 'fit_select': 'ModelSelect',
+              'fit_interpolate': 'ModelInterpolate'}
+
+
+def _fp(*arrays):
+    h = 0
+    for a_ in arrays:
+        h = zlib.crc32(np.ascontiguousarray(np.asarray(a_, dtype=float)).tobytes(), h)
+    return int(h % (2 ** 31 - 1))
+
+
+def run_session(basis, train, nc, fits, sigma=None):
+    """several fits, one after the other, on ONE model object per model class (all built on ONE basis RDMs object) and ONE
+    data object, full condition set.  Returns per fit: model / data fingerprints, predict(theta) for integer thetas, and whether
+    theta equals the one a fresh model gives (bit-identical)."""
+    import rsatoolbox.model as M
+    from rsatoolbox.model import fitter as F
+    B = basis_rdms(basis, nc)
+    D = data_rdms(train, nc)
+    models = {c: getattr(M, c)('m', B) for c in set(FITTERS_OF.values())}
+    K = len(basis)
+
+    def mfp():
+        return _fp(B.dissimilarities, *[m.rdm for m in models.values()], *[m.rdm_obj.dissimilarities for m in models.values()])
+    first = {'mfp': mfp(), 'dfp': _fp(D.dissimilarities)}
+    th1, th2 = np.ones(K), np.arange(1, K + 1, dtype=float)
+    steps = []
+    for fname, method in fits:
+        m = models[FITTERS_OF[fname]]
+        sk = sigma if method.endswith('_cov') else None
+        theta = getattr(F, fname)(m, D, method=method, sigma_k=sk)
+        fresh = getattr(M, FITTERS_OF[fname])('m', basis_rdms(basis, nc))
+        theta_f = getattr(F, fname)(fresh, data_rdms(train, nc), method=method, sigma_k=sk)
+        mw = models['ModelWeighted']
+        steps.append({'fit': [fname, method], 'mfp': mfp(), 'dfp': _fp(D.dissimilarities),
+                      'pred': np.asarray(mw.predict(th1), float), 'pred2': np.asarray(mw.predict_rdm(th2).get_vectors()[0], float),
+                      'same': bool(np.array_equal(np.asarray(theta, float), np.asarray(theta_f, float))),
+                      'theta': np.asarray(theta, float).tolist(), 'fresh': np.asarray(theta_f, float).tolist()})
+    return first, steps
+
+
+def check_session(rec, nc):
+    """S -> I for the "sess" behaviours of Fitting.tla.  Returns list of violations."""
+    out = []
+    basis, train, fits = rec['basis'], rec['train'], [tuple(f) for f in rec['fits']]
+    case = {'basis': basis, 'train': train, 'fits': [list(f) for f in fits], 'NC': nc}
+    try:
+        first, steps = run_session(basis, train, nc, fits, sigma_for(nc))
+    except Exception as ex:
+        return [(f'C08/raises/session/{type(ex).__name__}', f'{type(ex).__name__}: {ex}', case)]
+    p1, p2 = np.array(rec['pred'], float), np.array(rec['pred2'], float)
+    for k, st in enumerate(steps):
+        fname, method = st['fit']
+        if st['mfp'] != first['mfp']:
+            out.append((f'C08/frame/{fname}/{method}/model-modified', 'a fit altered the basis RDMs of the model it was given', dict(case, step=k)))
+            break
+        if st['dfp'] != first['dfp']:
+            out.append((f'C08/frame/{fname}/{method}/data-modified', 'a fit altered the training data it was given', dict(case, step=k)))
+            break
+        if not np.array_equal(st['pred'], p1) or not np.array_equal(st['pred2'], p2):
+            out.append((f'C08/frame/{fname}/{method}/prediction-after-fit', 'after the fit predict(theta) is no longer SUM theta_k basis_k of the original basis',
+                        dict(case, step=k, predict=st['pred'].tolist(), spec=p1.tolist())))
+            break
+        if not st['same']:
+            prev = '-'.join(steps[k - 1]['fit']) if k else 'first'
+            out.append((f'C08/frame/{fname}/{method}/fit-depends-on-history', 'the same fit on a fresh model object gives other parameters',
+                        dict(case, step=k, after=prev, theta=st['theta'], fresh=st['fresh'])))
+            break
+    return out
+
+
+def record_session_trace(seed, const):
+    """one recorded session of fits on ONE model object for Trace_Fitting.tla (hdr.fitter = "session")"""
+    rng = np.random.default_rng(seed)
+    nc = 4
+    L = nc * (nc - 1) // 2
+    K = int(rng.integers(2, 4))
+    while True:
+        basis = rng.integers(0, 4, size=(K, L))
+        c = basis - basis.mean(1, keepdims=True)
+        if np.linalg.matrix_rank(c) == K:
+            break
+    train = np.array([rng.permutation(L) for _ in range(int(rng.integers(1, 3)))])
+    kinds = [('fit_regress_nn', 'corr'), ('fit_regress_nn', 'corr_cov'), ('fit_regress', 'corr'), ('fit_regress', 'cosine'),
+             ('fit_regress_nn', 'cosine'), ('fit_regress', 'cosine_cov'), ('fit_select', 'cosine'), ('fit_interpolate', 'cosine')]
+    fits = [kinds[int(i)] for i in rng.integers(0, len(kinds), size=int(rng.integers(2, 4)))]
+    first, steps = run_session(basis.tolist(), train.tolist(), nc, fits, sigma_for(nc))
+    th = [int(x) for x in rng.integers(-2, 3, size=K)]
+    evs = []
+    import rsatoolbox.model as M
+    for st in steps:
+        evs.append({'fit': st['fit'], 'mfp': st['mfp'], 'dfp': st['dfp'], 'th': [1] * K,
+                    'pred': [int(round(x)) for x in st['pred']], 'same': st['same']})
+    return {'hdr': {'K': K, 'fitter': 'session', 'method': '', 'R': len(train), 'tol9': 0, 'basis': basis.tolist(),
+                    'mfp': first['mfp'], 'dfp': first['dfp']}, 'ev': evs}
+
+
+class FitTimeout(Exception):
+    pass
+
+
+_TIMEOUTS = {'n': 0}
+NN_SCALES = (1e-3, 1e2, 1e3, 1e5)
+NN_SOLVE_BUDGET = 500      # linear solves per parameter and fit (a terminating run needs a handful)
+
+
+class _CountingLinalg:
+    def __init__(self, real, budget):
+        self._real, self.budget, self.n = real, budget, 0
+
+    def solve(self, *a, **kw):
+        self.n += 1
+        if self.n > self.budget:
+            raise FitTimeout()
+        return self._real.solve(*a, **kw)
+
+    def __getattr__(self, name):
+        return getattr(self._real, name)
+
+
+class _NumpyShim:
+    """numpy as seen from rsatoolbox.model.fitter, with linalg.solve counted"""
+
+    def __init__(self, real, budget):
+        self._real = real
+        self.linalg = _CountingLinalg(real.linalg, budget)
+
+    def __getattr__(self, name):
+        return getattr(self._real, name)
+
+
+def call_with_budget(fn, n_param, *a, **kw):
+    """run a fit with a bound on the WORK, not on the time: the active-set algorithm of _nn_least_squares solves one small
+    linear system per change of the active set, and a terminating run changes it a few times n_param at most.  More than
+    NN_SOLVE_BUDGET x n_param solves in ONE fit is reported as non-termination (FitTimeout) - independent of the load of the
+    machine.  numpy.linalg.solve is counted only as seen from rsatoolbox.model.fitter."""
+    from rsatoolbox.model import fitter as Fm
+    real = Fm.np
+    shim = _NumpyShim(real, NN_SOLVE_BUDGET * max(1, n_param))
+    Fm.np = shim
+    try:
+        return fn(*a, **kw)
+    finally:
+        Fm.np = real
+
+
+def check_nn_scaled(basis, nc, data, pidx, method, sig, sigma, th_ref, case0, scorer, scales=NN_SCALES):
+    """fit_regress_nn on the same problem with the basis RDMs rescaled by 1e-3 .. 1e5: the fit terminates, the weights are
+    non-negative and describe the same prediction (the measures do not see the scale of the prediction)"""
+    from rsatoolbox.model import ModelWeighted
+    from rsatoolbox.model import fitter as F
+    out = []
+    for sc_ in scales:
+        if _TIMEOUTS['n'] >= 2:
+            break                      # this process has seen the fit hang repeatedly: reported, do not wait again
+        case = dict(case0, method=method, sigma_k='given' if sig else None, basis_scale=sc_, fitter='fit_regress_nn')
+        m = ModelWeighted('w', basis_rdms((np.array(basis, float) * sc_).tolist(), nc))
+        try:
+            th = np.asarray(call_with_budget(F.fit_regress_nn, len(basis), m, data, method=method, pattern_idx=pidx,
+                                            pattern_descriptor='index', sigma_k=sigma), dtype=float)
+        except FitTimeout:
+            _TIMEOUTS['n'] += 1
+            out.append((f'C08/nn/{method}/does-not-terminate', f'fit_regress_nn made more than {NN_SOLVE_BUDGET} x n_param linear solves (active set cycles) for basis RDMs scaled by {sc_:g}',
+                        case))
+            break
+        except Exception as ex:
+            out.append((f'C08/raises/fit_regress_nn/{method}/scaled-basis/{type(ex).__name__}', f'{type(ex).__name__}: {ex}', case))
+            continue
+        if th.shape != th_ref.shape or np.any(th < 0) or not np.all(np.isfinite(th)):
+            out.append((f'C08/nn/{method}/negative-weight', f'theta = {th.tolist()}', case))
+        else:
+            # the measures do not see the scale of the prediction: the weights found for the rescaled basis must score as well
+            # on the training data as those of the unscaled fit (the direction itself may differ where the optimum is flat)
+            if np.allclose(th, th_ref, rtol=0, atol=1e-9):
+                continue               # the same weights: nothing to score
+            s_ref = scorer.one(th_ref) if np.any(th_ref) else 0.0
+            s_new = scorer.one(th) if np.any(th) else 0.0      # all-zero weights: no prediction, similarity 0 by convention
+            if np.isfinite(s_ref) and not (np.isfinite(s_new) and s_new >= s_ref - TOL[method]):
+                out.append((f'C08/nn/{method}/scale-dependent', 'after rescaling all basis RDMs the non-negative fit scores lower on the training data',
+                            dict(case, theta=th.tolist(), unscaled=th_ref.tolist(), score=float(s_new), unscaled_score=float(s_ref))))
+    return out
+
+
+NN_PROBES = [   # (basis, nc, training RDMs, pattern_idx): fixed problems, every method and scale, independent of the thinning
+    ([[1, 2, 3, 1, 2, 1], [3, 1, 0, 2, 0, 1]], 4, [[1, 2, 0, 1, 0, 2]], [0, 1, 2]),
+    ([[1, 2, 3, 1, 2, 1], [3, 1, 0, 2, 0, 1], [0, 1, 1, 3, 2, 2]], 4, [[0, 2, 1, 1, 0, 2], [2, 0, 1, 2, 1, 0]], [0, 1, 2, 3]),
+    ([[1, 2, 3], [3, 1, 1]], 3, [[1, 3, 0]], [0, 0, 1, 2]),
+    ([[1, 0, 0, 1, 2, 3], [0, 2, 1, 1, 0, 1], [2, 2, 0, 0, 1, 1]], 4, [[2, 1, 0, 1, 2, 2]], [0, 1, 1, 2, 3, 3]),
+]
+
+
+def check_nn_probes():
+    """fit_regress_nn terminates on rescaled bases: fixed probe problems x 4 methods x sigma none / given x 4 scales"""
+    from rsatoolbox.model import ModelWeighted
+    from rsatoolbox.model import fitter as F
+    out, n = [], 0
+    _TIMEOUTS['n'] = 0
+    for basis, nc, train, pidx in NN_PROBES:
+        pidx = np.array(pidx)
+        data = data_rdms(train, nc).subsample_pattern('index', pidx)
+        mw = ModelWeighted('w', basis_rdms(basis, nc))
+        case0 = {'basis': basis, 'train': train, 'pidx': pidx.tolist(), 'NC': nc, 'probe': True}
+        for method, sig in CONFIGS:
+            sigma = sigma_for(len(pidx)) if sig else None
+            try:
+                th = np.asarray(call_with_budget(F.fit_regress_nn, len(basis), mw, data, method=method, pattern_idx=pidx,
+                                                pattern_descriptor='index', sigma_k=sigma), float)
+            except FitTimeout:
+                out.append((f'C08/nn/{method}/does-not-terminate', f'fit_regress_nn made more than {NN_SOLVE_BUDGET} x n_param linear solves (unscaled basis)',
+                            dict(case0, method=method)))
+                continue
+            except Exception as ex:
+                out.append((f'C08/raises/fit_regress_nn/{method}/{type(ex).__name__}', f'{type(ex).__name__}: {ex}', dict(case0, method=method)))
+                continue
+            _TIMEOUTS['n'] = 0          # the probes try every scale (a cycling fit costs only its solve budget)
+            out += check_nn_scaled(basis, nc, data, pidx, method, sig, sigma, th, case0, Scorer(mw, data, pidx, method, sigma))
+            n += 1 + len(NN_SCALES)
+    _TIMEOUTS['n'] = 0
+    return out, n
 
 
 class Scorer:
@@ -176,6 +403,10 @@ def check_problem(rec, comps, nc, rng, n_random=200, with_optimize=False, config
                 out.append((_key('b' if nonneg else 'a', fname, method, sig, R, rep),
                             'a competing weight vector scores higher on the training data than the fitted one',
                             dict(case, theta=th.tolist(), score=s_fit, competitor=C[j].tolist(), competitor_score=float(s_c[j]))))
+            if nonneg:
+                # (the fixed probes of check_nn_probes run all four scales; here the two extremes that differ in kind)
+                out += check_nn_scaled(basis, nc, data, pidx, method, sig, sigma, th, case0, sc, scales=(1e-3, 1e3))
+                n_eval += 2
             # ridge_weight > 0 (the property fixes ridge 0): structural post-conditions only - the penalty shrinks the
             # unnormalised weights monotonically, and the non-negative fitter stays non-negative
             if method in ('cosine', 'corr') or sig:
@@ -281,14 +512,22 @@ def check_problem(rec, comps, nc, rng, n_random=200, with_optimize=False, config
             except Exception as ex_:
                 out.append((f'C08/raises/fit_interpolate/{method}/{type(ex_).__name__}', f'{type(ex_).__name__}: {ex_}', case))
         # multi-start BFGS (a sample only)
-        if with_optimize and method in ('cosine', 'corr') and not interp_only:
-            for fname, nonneg in (('fit_optimize', False), ('fit_optimize_positive', True)):
-                case = dict(case0, method=method, fitter=fname)
+        if with_optimize and (method in ('cosine', 'corr') or (sig and with_optimize >= 2)) and not interp_only:
+            # whitened measure with a given sigma_k: the positive optimiser only (optimal over theta >= 0, not all-zero)
+            for fname, nonneg in ((('fit_optimize', False), ('fit_optimize_positive', True)) if not sig else (('fit_optimize_positive', True),)):
+                case = dict(case0, method=method, fitter=fname, sigma_k='given' if sig else None)
                 try:
                     np.random.seed(zlib.crc32(repr((basis, train, rec['pidx'], fname, method)).encode()) % (2 ** 31 - 1))
-                    th = np.asarray(getattr(F, fname)(mw, data, method=method, pattern_idx=pidx, pattern_descriptor='index'), dtype=float)
-                    s_fit = sc.one(th)
-                    C = np.vstack([wcomps, rng.normal(size=(n_random // 2, K))])
+                    th = np.asarray(getattr(F, fname)(mw, data, method=method, pattern_idx=pidx, pattern_descriptor='index',
+                                                      sigma_k=sigma), dtype=float)
+                    s_fit = sc.one(th) if np.all(np.isfinite(th)) else -np.inf
+                    if not np.isfinite(s_fit):
+                        s_fit = -np.inf          # an all-zero (or non-finite) parameter vector has no defined whitened similarity
+                    # deterministic competitors only (the verdict on the optimisers must not depend on VERIF_SEED): TLC's grid and
+                    # the closed-form optimum of the regression fitter for the same constraint
+                    ref_fit = F.fit_regress_nn if nonneg else F.fit_regress
+                    C = np.vstack([wcomps, np.asarray(ref_fit(mw, data, method=method, pattern_idx=pidx, pattern_descriptor='index',
+                                                              sigma_k=sigma), float)[None, :]])
                     if nonneg:
                         C = np.abs(C)
                         if np.any(th < 0):
@@ -299,15 +538,17 @@ def check_problem(rec, comps, nc, rng, n_random=200, with_optimize=False, config
                     j = int(np.nanargmax(s_c))
                     margin((fname, method, False, R > 1, rep), s_c[j] - s_fit)
                     if s_c[j] > s_fit + TOL_OPT:
-                        out.append((f"C08/{'b' if nonneg else 'a'}/{fname}/{method}", 'a competing weight vector scores higher than the optimiser\'s',
+                        zero = '/all-zero' if not np.any(th) else ''          # own class: the optimiser returned no weights at all
+                        out.append((f"C08/{'b' if nonneg else 'a'}/{fname}/{method}" + ('/sigma_k-given' if sig else '') + zero,
+                                    'a competing weight vector scores higher than the optimiser\'s',
                                     dict(case, theta=th.tolist(), score=s_fit, competitor=C[j].tolist(), competitor_score=float(s_c[j]))))
-                    nrm = float(np.sqrt(th @ th))
+                    nrm = float(np.sqrt(th @ th)) if np.all(np.isfinite(th)) else 0.0
                     if nrm > 0 and abs(nrm - 1) > 1e-12:
                         out.append((f'C08/e/{fname}/not-unit-norm', f'|theta| = {nrm!r}', dict(case, theta=th.tolist())))
                     if nonneg:
                         # structural post-condition with a ridge penalty and without normalisation
                         t_ = np.asarray(getattr(F, fname)(mw, data, method=method, pattern_idx=pidx, pattern_descriptor='index',
-                                                          ridge_weight=0.1, normalize=False), dtype=float)
+                                                          sigma_k=sigma, ridge_weight=0.1, normalize=False), dtype=float)
                         if t_.shape != (K,) or np.any(t_ < 0) or not np.all(np.isfinite(t_)):
                             out.append((f'C08/ridge/{fname}/negative-weight', f'theta = {t_.tolist()} with ridge_weight = 0.1', case))
                 except Exception as ex_:
@@ -536,6 +777,30 @@ def check_deps(rec, nc, rng, mw, ms, mi, interp_only=False):
                 out.append((f'C08/f/{fname}/prediction-conditions', 'the prediction scored during the fit does not cover the selected conditions with their multiplicity',
                             dict(case0, fitter=fname, got=idx, spec=want_idx)))
                 break
+    # pattern_idx holds VALUES of the pattern descriptor, not positions: model, data and pattern_idx relabelled 3..n+2 alike
+    # (as after a subset_pattern) must give the very same parameters
+    import rsatoolbox.model as M_
+    off = 3
+    for fname, cls in list(FITTERS_OF.items())[(2 if interp_only else 0):]:
+        for method in ('cosine', 'corr'):
+            try:
+                m0 = getattr(M_, cls)('m', basis_rdms(rec['basis'], nc))
+                t0 = getattr(F, fname)(m0, data_rdms(rec['train'], nc).subsample_pattern('index', pidx), method=method,
+                                       pattern_idx=pidx, pattern_descriptor='index')
+            except Exception:
+                continue
+            try:
+                m1 = getattr(M_, cls)('m', basis_rdms(rec['basis'], nc, index=np.arange(nc) + off))
+                d1 = data_rdms(rec['train'], nc, index=np.arange(nc) + off).subsample_pattern('index', pidx + off)
+                t1 = getattr(F, fname)(m1, d1, method=method, pattern_idx=pidx + off, pattern_descriptor='index')
+                bad = not np.array_equal(np.asarray(t0), np.asarray(t1))
+                detail = [np.asarray(t0).tolist(), np.asarray(t1).tolist()]
+            except Exception as ex:
+                bad, detail = True, f'{type(ex).__name__}: {ex}'
+            if bad:
+                out.append((f'C08/f/{fname}/index-values-not-positions',
+                            'with the index descriptor relabelled (3..n+2) on model, data and pattern_idx alike the fit differs / fails',
+                            dict(case0, fitter=fname, method=method, detail=detail)))
     # perturbation replay: entries of the basis RDMs outside the selected conditions must not move theta
     sel = set(int(p) for p in pidx)
     iu = np.triu_indices(nc, 1)
@@ -567,7 +832,7 @@ def check_deps(rec, nc, rng, mw, ms, mi, interp_only=False):
 DTYPES = ('float64', 'float32', 'int64', 'int32')
 
 
-def check_lin(rec, nc, dtype='float64', scale=1.0):
+def check_lin(rec, nc, dtype='float64', scale=1.0, index_kind=0):
     """exact on the integer grid.  ``dtype``: how the basis RDMs are stored (integer-valued in every flavour);
     ``scale``: the weights are the grid weights times scale (1 or 1/4: quarters are exact in binary, so the
     expected predictions stay exact while the weights are no longer integers).  Returns list of violations."""
@@ -578,11 +843,16 @@ def check_lin(rec, nc, dtype='float64', scale=1.0):
     K = len(basis)
     th1, th2, c = np.array(rec['th1'], dtype=float) * scale, np.array(rec['th2'], dtype=float) * scale, float(rec['c'])
     p1, p2, p12 = (np.array(rec[k], dtype=float) * scale for k in ('p1', 'p2', 'p12'))
-    B = basis_rdms(basis, nc, dtype=np.dtype(dtype))
-    case = {'basis': basis, 'th1': th1.tolist(), 'th2': th2.tolist(), 'c': rec['c'], 'basis_dtype': dtype}
+    # the model's own condition descriptors: 'index' is a descriptor like any other - 0..n-1, 3..n+2 (after a subset_pattern)
+    # or a permutation; the model must carry them as they are (and leave the caller's RDMs object alone)
+    index = [None, list(range(3, nc + 3)), list(range(nc - 1, -1, -1))][index_kind % 3]
+    B = basis_rdms(basis, nc, dtype=np.dtype(dtype), index=index)
+    bd0 = {k: list(v) for k, v in B.pattern_descriptors.items()}
+    case = {'basis': basis, 'th1': th1.tolist(), 'th2': th2.tolist(), 'c': rec['c'], 'basis_dtype': dtype,
+            'index_descriptor': bd0['index']}
 
     def desc_ok(r):
-        pd, bd = r.pattern_descriptors, B.pattern_descriptors
+        pd, bd = r.pattern_descriptors, bd0
         return all(k in pd and list(pd[k]) == list(bd[k]) for k in bd) and r.n_cond == nc
 
     for cls in ('ModelWeighted', 'ModelInterpolate'):
@@ -620,6 +890,7 @@ def check_lin(rec, nc, dtype='float64', scale=1.0):
         m2 = model_from_dict(ms.to_dict())
         if not np.array_equal(np.asarray(m2.predict(k)), v) or not np.array_equal(m2.predict_rdm(k).get_vectors()[0], v):
             out.append(('C08/h/ModelSelect/from_dict', 'model rebuilt from its dictionary predicts differently', dict(case, k=k)))
+    # (whether a constructor may write 'index' into the RDMs object it is given is C12's question, not demanded here)
     mf = M.ModelFixed('f', B[0])
     v = np.asarray(mf.predict())
     r = mf.predict_rdm()
